@@ -331,8 +331,30 @@ def _seq_build_bad(pre, post):
     """a value list shorter than the member list is completed with None (what parse returns when a member ended it early is such a
     list: C02), so running out of supplied values is never an error of its own"""
     code = post.eng.src.exc_code
-    return [('running-out-of-supplied-values-is-not-an-error-the-remaining-members-are-built-from-None',
-             t.ne(post.exc.cls, I(code['StopIteration'])), ('C02', 'C03'))]
+    out = [('running-out-of-supplied-values-is-not-an-error-the-remaining-members-are-built-from-None',
+            t.ne(post.exc.cls, I(code['StopIteration'])), ('C02', 'C03'))]
+    o0 = pre.obj('stream')
+    if o0.model == 'adv':
+        return out
+    ghost_mode = getattr(post.eng.models, 'ghost_mode', False)
+    if post.st.ghost.get('LE') is None and not ghost_mode:
+        return out          # a failure before the first member (the scope could not be opened): nothing to say in terms of the fold
+    sl = pre.self.fields['subcons'].ident
+    n = t.app('sl_len', t.INT, sl)
+    LE = _le_build(post)
+    base = _base(o0)
+    v = pre['obj'].t
+    kk = post.st.ghost.get('loop_k')
+    if kk is None or ghost_mode:
+        kk = fresh('failed_member', t.INT)
+    F = qbfold(LE, sl, t.add(kk, t.ONE), v, base)
+    c0, c1 = pre.obj('context').addr, _addr(LE, 'context')
+    le_o = LE.get(LE.env['stream'])
+    out += [('nested-scope-is-a-child-of-the-enclosing-scope', child_of(LE.ghost['H'], LE.ghost['D'], c1, pre.st.ghost['H'], pre.st.ghost['D'], c0), ('C07',)),
+            ('stream-untouched-before-the-first-member', t.and_(t.eq(le_o.buf, o0.buf), t.eq(le_o.len, o0.len), t.eq(le_o.pos, o0.pos)), ('C03',))]
+    out.append(('a-failure-is-the-failure-of-some-member-build-in-the-specification-fold', t.and_(t.le(t.ZERO, kk), t.lt(kk, n), t.not_(bs('bs_ok', F))), T + ('C02',),
+                [prelude.definition_instance('qbfold', [sl, t.add(kk, t.ONE), _qb0(LE), v, base, _addr(LE, 'context')])]))
+    return out
 
 
 def register_sequence_build(src):
